@@ -89,6 +89,16 @@ class TDro(TypedDict):
     ident: ReadOnly[int]
     when: NotRequired[ReadOnly[datetime.date]]
 
+class NTg(NamedTuple, Generic[T1]):
+    x: T1
+    xs: List[T1]
+    o: Optional[T1] = None
+
+class TDg(TypedDict, Generic[T1]):
+    item: T1
+    note: NotRequired[str]
+    items: NotRequired[List[T1]]
+
 @dataclass
 class Shape(DataClassDictMixin):
     area: int = 0
@@ -120,6 +130,9 @@ class Rare@MIX@:
     bo: Box2[Optional[datetime.date]] = field(default_factory=lambda: Box2(None))
     fo: Final[Optional[datetime.date]] = None
     fu: Final[Union[int, None, str]] = None
+    tg: TDg[datetime.date] = field(default_factory=lambda: {'item': datetime.date(2000, 1, 1)})
+    tgs: List[TDg[int]] = field(default_factory=list)
+    ng: NTg[datetime.date] = field(default_factory=lambda: NTg(datetime.date(2000, 1, 1), []))
 @CFG@
 @dataclass
 class RareD(DataClassDictMixin):
@@ -160,7 +173,9 @@ def rare_constructors_case(rng, rec):
         v = m.Rare(w1=m.DictWrapper({d1: txt}), w2=m.DictWrapper({"k": d2}), row=m.Row((1, d1, "s"), "l"), lead=m.Lead(d2, (7, u)), ls=txt, pt=m.Point(1, "y"),
                    ro={"ident": 3, "when": d1} if rng.random() < 0.6 else {"ident": 3}, rows=[m.Row((d2,))], empty=m.Row(()),
                    wopt=m.DictWrapper({1: 2}) if rng.random() < 0.5 else None,
-                   bo=m.Box2(rng.choice([None, d2])), fo=rng.choice([None, d1]), fu=rng.choice([None, 3, "s"]))
+                   bo=m.Box2(rng.choice([None, d2])), fo=rng.choice([None, d1]), fu=rng.choice([None, 3, "s"]),
+                   tg=rng.choice([{"item": d1}, {"item": d2, "note": "n"}, {"item": d1, "items": [d2]}]), tgs=[{"item": 1}, {"item": 2, "note": "n", "items": [3]}],
+                   ng=m.NTg(d1, [d2, d1], rng.choice([None, d2])))
         vd = m.RareD(shapes=[m.Circle(1, r=2), m.Sq(3, side=d2)], shmap={"k": m.Sq(4, side=d1)}, shopt=m.Circle(5, r=6) if rng.random() < 0.5 else None)
         expd = {"shapes": [{"area": 1, "kind": "circle", "r": 2}, {"area": 3, "kind": "sq", "side": d2.isoformat()}],
                 "shmap": {"k": {"area": 4, "kind": "sq", "side": d1.isoformat()}}, "shopt": {"area": 5, "kind": "circle", "r": 6} if vd.shopt is not None else None}
@@ -181,7 +196,10 @@ def rare_constructors_case(rng, rec):
                "lead": {"head": d2.isoformat(), "rest": [7, str(u)]}, "ls": txt, "pt": [1, "y"],
                "ro": {"ident": 3, **({"when": d1.isoformat()} if "when" in v.ro else {})}, "rows": [{"cells": [d2.isoformat()], "label": ""}],
                "empty": {"cells": [], "label": ""}, "wopt": {1: 2} if v.wopt is not None else None,
-               "bo": {"v": None if v.bo.v is None else v.bo.v.isoformat()}, "fo": None if v.fo is None else v.fo.isoformat(), "fu": v.fu}
+               "bo": {"v": None if v.bo.v is None else v.bo.v.isoformat()}, "fo": None if v.fo is None else v.fo.isoformat(), "fu": v.fu,
+               "tg": {k: (x.isoformat() if k == "item" else [i.isoformat() for i in x] if k == "items" else x) for k, x in v.tg.items()},
+               "tgs": [{"item": 1}, {"item": 2, "note": "n", "items": [3]}],
+               "ng": [d1.isoformat(), [d2.isoformat(), d1.isoformat()], None if v.ng.o is None else v.ng.o.isoformat()]}
         routes = [("codec", BasicEncoder(m.Rare).encode, BasicDecoder(m.Rare).decode)]
         if mixin:
             routes.append(("mixin", lambda x: x.to_dict(), m.Rare.from_dict))
